@@ -849,7 +849,7 @@ def gen_program(rng, path, tmpl=None):
                     stack[-1] = f
                     if slot == "arg":      # gcc locates macro-argument tokens of a system header at the expansion point
                         P.oracle_safe = False
-                elif fr < 0.90:
+                elif fr < 0.84:
                     flags = rng.choice([b" 2", b" 1 3 4", b" 4", b" 7", b" 2 3"])
                     P.oracle_safe = False
                     stack[-1] = f
@@ -998,10 +998,10 @@ def run_kb(X):
     rng = ck.rng
     d = os.path.join(ck.scratch(), "kb")
     os.makedirs(d, exist_ok=True)
-    nprog = 260 if ck.quick else 2400
+    nprog = 500 if ck.quick else 4000
     progs = []
     # every template at least once, then random
-    order = list(TEMPLATES) * (2 if ck.quick else 8)
+    order = list(TEMPLATES) * (3 if ck.quick else 12)
     for k in range(nprog):
         path = os.path.join(d, "p%d.c" % k).encode()
         P = gen_program(rng, path, order[k] if k < len(order) else None)
